@@ -418,19 +418,19 @@ func imgpath1dMalformed(c *Ctx, r *Rng, sym c03Sym, cs c03Case, rows [][]bool, b
 	}
 	add("noise", p)
 	// cropped on the left or right (symbol cut)
-	cut := r.Range(1, c10Max(1, w/3))
-	p = cp(hh)
-	for y := range p {
-		if r.Bool() {
-			p[y] = p[y][cut:]
-		} else {
-			p[y] = p[y][:w-cut]
+	if w >= 3 {
+		cut := r.Range(1, c10Max(1, w/3))
+		p = cp(hh)
+		left := r.Bool()
+		for y := range p {
+			if left {
+				p[y] = p[y][cut:]
+			} else {
+				p[y] = p[y][:w-cut]
+			}
 		}
-		if len(p[y]) != len(p[0]) {
-			p[y] = p[0]
-		}
+		add("cropped", p)
 	}
-	add("cropped", p)
 	// tiny pictures
 	tw := r.Range(1, 4)
 	p = make([][]bool, r.Range(1, 3))
